@@ -103,7 +103,8 @@ type fastCompare struct {
 
 var (
 	fastFieldOpNum = regexp.MustCompile(`^\s*([A-Za-z_][A-Za-z0-9_]*)\s*(>=|<=|!=|<>|==|=|>|<)\s*(-?\d+(?:\.\d+)?)\s*$`)
-	fastFieldOpStr = regexp.MustCompile(`^\s*([A-Za-z_][A-Za-z0-9_]*)\s*(>=|<=|!=|<>|==|=|>|<)\s*'([^']*)'\s*$`)
+	// a literal with a backslash is left to expr-lang, which unescapes it ('\u0061' is "a", '\q' does not compile)
+	fastFieldOpStr = regexp.MustCompile(`^\s*([A-Za-z_][A-Za-z0-9_]*)\s*(>=|<=|!=|<>|==|=|>|<)\s*'([^'\\]*)'\s*$`)
 )
 
 // tryFastCompare returns a fast-path for trivial comparisons, or nil if the
